@@ -13,7 +13,7 @@ namespace CV.Chain
 
 /-- What the crate's static assertions (`PRECISION > 0`, `PRECISION <= Word::BITS`,
     `State::BITS >= Word::BITS + PRECISION`) and trait bounds (`Probability: Into<Word>`,
-    entropy models with `PRECISION <= Probability::BITS`) admit for a chain coder.
+    entropy models with `PRECISION <= Probability::BITS`) allow for a chain coder.
     Weaker than `Cfg.Valid`. -/
 def CValid (c : Cfg) : Prop := 1 ≤ c.P ∧ c.P ≤ c.B ∧ c.B ≤ c.W ∧ c.W + c.P ≤ c.S
 
